@@ -282,7 +282,7 @@ func runC20(c *Ctx, r *Report) {
 			})
 		})
 	}
-	r.Floor("R-C20.3", "CreateKey call sites in identityprovider", nCreate, 2)
+	r.Floor("R-C20.3", "CreateKey call sites in identityprovider", nCreate, 1)
 
 	// R-C20.4
 	ci := p.Func("identityprovider", "Identities", "CreateIdentity")
